@@ -5,6 +5,7 @@ mod c10;
 mod c11;
 mod c12;
 mod c15;
+mod c17;
 mod c18;
 mod sqlchecks;
 mod sqlgen;
@@ -75,6 +76,7 @@ fn main() {
         "C11" => c11::run(&ctx),
         "C12" => c12::run(&ctx),
         "C15" => c15::run(&ctx),
+        "C17" => c17::run(&ctx),
         "C18" => c18::run(&ctx),
         "probe" => {
             probe::run();
